@@ -91,7 +91,8 @@ impl Prop for C12 {
         // group B: float -> int
         if is_float(k1) && is_int(k2) {
           let pairs: Vec<J> = vals.iter().map(|v| { let x = match num_of(v) { Some(Num::Flt(x)) => x, _ => 0.0 }; json!({"v": v, "allowed": float_to_int(x, k2), "nan": x.is_nan()}) }).collect();
-          let cell = format!("from={};to={};group=float-to-int", k1, k2); out.push(Case { id: cell.clone(), cell, input: json!({"mode": "scalar", "to": k2, "pairs": pairs}) });
+          let cell = format!("from={};to={};group=float-to-int", k1, k2); out.push(Case { id: cell.clone(), cell, input: json!({"mode": "scalar", "to": k2, "pairs": pairs.clone()}) });
+          let cell = format!("from={};to={};group=float-to-int;form=option", k1, k2); out.push(Case { id: cell.clone(), cell, input: json!({"mode": "scalar", "to": k2, "opt": true, "pairs": pairs}) });
         }
         // group C: matrix form == scalar form, shape kept
         for (r, c) in [(1usize, 3usize), (3, 1), (2, 2), (2, 3)] {
@@ -122,15 +123,22 @@ impl Prop for C12 {
       if rng.chance(1, 3) { let wc = format!("{};form=wildcard", cell); out.push(Case { id: wc.clone(), cell: wc, input: json!({"mode": "reshape", "kind": k, "wild": true, "m": super::c03::index_matrix(k, *r, *c, 0), "r2": r2, "c2": c2, "equal": equal}) }); }
     } }
     // matrix -> set of ANOTHER kind: the elements are the scalar conversions of the distinct elements (integer kinds, boundary values)
-    for k1 in ["u8", "u16", "u32", "u64", "i8", "i16", "i32", "i64"] { for k2 in ["u8", "u16", "u32", "u64", "i8", "i16", "i32", "i64", "f64"] {
+    for k1 in ["u8", "u16", "u32", "u64", "i8", "i16", "i32", "i64", "f64", "f32"] { for k2 in ["u8", "u16", "u32", "u64", "i8", "i16", "i32", "i64", "f64"] {
       if k1 == k2 { continue; }
       let mut rng = Rng::keyed(seed, &format!("c12setconv{}{}", k1, k2));
-      let vals: Vec<CVal> = kind_values(k1, &mut rng, 4).into_iter().filter(|v| num_of(v).and_then(|n| representable(&n, k2)).is_some()).collect();
+      let vals: Vec<CVal> = if is_float(k1) { [1.5f64, 2.5, 2.9, -3.7, 0.0, 7.0].iter().filter(|x| **x >= 0.0 || !is_unsigned(k2)).map(|x| if k1 == "f32" { sc_f32(*x as f32) } else { sc_f64(*x) }).collect() } else { kind_values(k1, &mut rng, 4).into_iter().filter(|v| num_of(v).and_then(|n| representable(&n, k2)).is_some()).collect() };
       if vals.len() < 2 { continue; }
       let e: Vec<CVal> = (0..6).map(|i| vals[i % vals.len()].clone()).collect();
       let cell = format!("toset-convert;from={};to={}", k1, k2);
       out.push(Case { id: cell.clone(), cell, input: json!({"mode": "toset-convert", "to": k2, "m": CVal::M(k1.to_string(), 1, 6, e)}) });
     } }
+    // a SCALAR annotated with a matrix kind and shape is spread over the shape: every element is the scalar conversion
+    for (vi, (k1, lit1)) in [("u8", "5<u8>"), ("f64", "300.7"), ("f64", "-3.7"), ("f64", "2.5"), ("i64", "-7<i64>"), ("f32", "1.5<f32>"), ("u16", "40000u16")].iter().enumerate() {
+      for k2 in ["f64", "u8", "i8", "i64", "f32", "u16", "u64"] { for (r, c) in [(3usize, 2usize), (1, 3), (2, 1)] { for form in ["variable", "literal"] {
+        let cell = format!("spread;from={};to={};shape={}x{};form={}", k1, k2, r, c, form);
+        out.push(Case { id: format!("{};v={}", cell, vi), cell, input: json!({"mode": "spread", "lit": lit1, "to": k2, "r": r, "c": c, "form": form}) });
+      } } }
+    }
     // matrix -> set
     for k in ["f64", "u8", "i64", "string", "bool", "r64", "u64", "f32"] {
       for i in 0..(if tier == Tier::Quick { 4 } else { 30 }) {
@@ -189,7 +197,18 @@ impl Prop for C12 {
           }
         }
         // a pair of kinds with no conversion at all is an error for every value: allowed by the property
-        if errs == total { return Outcome::trivial().tag(format!("no-conversion:{}", case.cell.split(";group").next().unwrap_or(""))); }
+        if errs == total {
+          // ... unless the target can represent EVERY value of the source kind (a true widening: the property's first clause presupposes it)
+          let k1 = case.cell.split(';').next().unwrap_or("").trim_start_matches("from=").to_string();
+          let widening = |a: &str, b: &str| -> bool {
+            if is_int(a) && is_int(b) { let (ab, bb) = (bits(a), bits(b)); return if is_unsigned(a) == is_unsigned(b) { bb > ab } else { is_unsigned(a) && bb > ab }; }
+            if is_int(a) && b == "f64" { return bits(a) <= 32; }
+            if is_int(a) && b == "f32" { return bits(a) <= 16; }
+            a == "f32" && b == "f64"
+          };
+          if widening(&k1, k2) && case.cell.contains("group=representable") { return first_err.map(|mut o| { o.class = "widening-conversion-missing".into(); o }).unwrap_or_else(|| Outcome::violated("widening-conversion-missing", case.cell.clone())); }
+          return Outcome::trivial().tag(format!("no-conversion:{}", case.cell.split(";group").next().unwrap_or("")));
+        }
         if let Some(o) = first_err { return o; }
         if compared > 0 { Outcome::held().num("values", compared as f64) } else { Outcome::trivial() }
       }
@@ -242,6 +261,23 @@ impl Prop for C12 {
           Ev::ParseErr(p) => Outcome::inconclusive("harness-parse", p),
         }
       }
+      "spread" => {
+        let (lit1, k2, r, c, form) = (case.input["lit"].as_str().unwrap(), case.input["to"].as_str().unwrap(), case.input["r"].as_u64().unwrap() as usize, case.input["c"].as_u64().unwrap() as usize, case.input["form"].as_str().unwrap());
+        let mut t = Sess::new();
+        let twin = match t.eval(&format!("x := {}\ny<{}> := x", lit1, annot(k2))) { Ev::Ok(v) => v, _ => return Outcome::trivial().tag("scalar-conversion-unsupported") };
+        let mut s = Sess::new();
+        let src = if form == "variable" { format!("x := {}\ny<[{}]:{},{}> := x", lit1, annot(k2), r, c) } else { format!("y<[{}]:{},{}> := {}", annot(k2), r, c, lit1) };
+        match s.eval(&src) {
+          Ev::Ok(got) => {
+            if !got.is_matrix() || got.shape() != (r, c) { return Outcome::violated("spread-shape-differs", format!("{} gave {}", src.replace('\n', " ; "), got.show())); }
+            if got.elems().iter().any(|e| *e != twin) { return Outcome::violated("spread-differs-from-scalar", format!("{} gave {} but the scalar conversion is {}", src.replace('\n', " ; "), got.show(), twin.show())); }
+            Outcome::held()
+          }
+          Ev::Panic(p) => Outcome::violated("panic-escaped", p),
+          Ev::ParseErr(p) => Outcome::inconclusive("harness-parse", p),
+          Ev::Err(..) => Outcome::trivial().tag("spread-unsupported"),
+        }
+      }
       "toset-convert" => {
         let k2 = case.input["to"].as_str().unwrap();
         let m: CVal = serde_json::from_value(case.input["m"].clone()).unwrap();
@@ -252,7 +288,11 @@ impl Prop for C12 {
         match s.eval(&format!("u<{{{}}}> := m", annot(k2))) {
           Ev::Ok(CVal::Set(_, n, e)) => { if e != want { return Outcome::violated("set-differs-from-scalar-conversions", format!("u<{{{}}}> := {} gave {{{}}} but the scalar conversions of its elements are {{{}}}", k2, m.show(), e.iter().map(|x| x.show()).collect::<Vec<_>>().join(","), want.iter().map(|x| x.show()).collect::<Vec<_>>().join(","))); } if n != want.len() { return Outcome::violated("set-size-wrong", format!("declared size {} but {} elements", n, want.len())); } Outcome::held() }
           Ev::Ok(o) => Outcome::violated("not-a-set", format!("u<{{{}}}> := {} gave {}", k2, m.show(), o.show())),
-          Ev::Err(..) => Outcome::trivial().tag("set-conversion-unsupported"),
+          // every element converts on its own and a matrix converts "every element by the same rule": a rejected set conversion is then
+          // a conversion that exists for scalars but not for this container
+          // (only for the conversions the property promises outright: float to integer, and true widenings; other pairs may have no conversion)
+          Ev::Err(k, msg) => { let k1 = m.elem_kind(); let promised = (is_float(&k1) && is_int(k2)) || (is_int(&k1) && is_int(k2) && bits(k2) > bits(&k1) && (is_unsigned(&k1) || !is_unsigned(k2))) || (is_int(&k1) && k2 == "f64" && bits(&k1) <= 32);
+            if promised { Outcome::violated("set-conversion-rejected", format!("u<{{{}}}> := {} failed ({} {}) although every element converts as a scalar", k2, m.show(), k, msg.chars().take(80).collect::<String>())) } else { Outcome::trivial().tag("set-conversion-unsupported") } }
           Ev::Panic(p) => Outcome::violated("panic-escaped", p),
           Ev::ParseErr(p) => Outcome::inconclusive("harness-parse", p),
         }
